@@ -12,7 +12,7 @@ use serde_json::{json, Value};
 
 pub fn elements() -> Vec<Value> {
     vec![
-        json!(0), json!(1), json!(2), json!("a"), json!(null), json!([1]),
+        json!(0), json!(1), json!("1"), json!("a"), json!(null), json!([1]), json!(true),
         json!({"current": "ec", "accumulator": "ea", "outer": "eo"}),
         json!({"var": "outer"}),
     ]
